@@ -150,6 +150,7 @@ static void val_print_depth(NanoValue v, FILE *out, int depth, ValPrintCtx *pc) 
 
 #ifdef NANOLANG_VERIF
 long long nanolang_verif_print_items = 0;
+extern long long nanolang_verif_fuel;   /* vm.c; >= 0 only in single-threaded budgeted runs */
 #endif
 
 void val_print(NanoValue v, FILE *out) {
@@ -158,7 +159,9 @@ void val_print(NanoValue v, FILE *out) {
     pc.items_left = VAL_PRINT_MAX_ITEMS;
     val_print_depth(v, out, 0, &pc);
 #ifdef NANOLANG_VERIF
-    nanolang_verif_print_items += VAL_PRINT_MAX_ITEMS - pc.items_left;
+    if (nanolang_verif_fuel >= 0) {     /* never in the daemon: no shared write between client threads */
+        nanolang_verif_print_items += VAL_PRINT_MAX_ITEMS - pc.items_left;
+    }
 #endif
 }
 
